@@ -238,6 +238,80 @@ def estimate_between_cases(run):
                             theorem="C06_execute_or_skip")
 
 
+def segment_history_cases(run):
+    """two pipelines that both discover the segments and then smooth the
+    height, one with and one without a slope correction that moves the
+    turning point, applied one after the other to the same curve object (both
+    orders): the columns are those of the second pipeline on a fresh curve,
+    and the approach / retract views agree with the segment column"""
+    import warnings
+    from . import c07
+    from nanite import IndentationGroup
+    base = ["compute_tip_position", "correct_force_offset",
+            "correct_tip_offset"]
+    PA = (base + ["correct_split_approach_retract", "smooth_height"], {})
+    PB = (base + ["correct_force_slope", "correct_split_approach_retract",
+                  "smooth_height"],
+          {"correct_force_slope": {"region": "all", "strategy": "drift"}})
+    PC = (base + ["correct_force_slope", "correct_split_approach_retract",
+                  "smooth_height"],
+          {"correct_force_slope": {"region": "approach",
+                                   "strategy": "shift"}})
+    makers = []
+    for sd, lag in ((7, 6), (8, 11)):
+        cols, k = c07.synthetic("hertz_para", sd, tilt=0.4, drift=0.3,
+                                lag=lag, noise=2e-10, n_app=220, n_ret=140)
+        makers.append((f"synthetic:{sd}", lambda cols=cols, k=k:
+                       curves.make_indentation(cols, k=k)))
+    path = common.REPO / "tests" / "data" / (
+        "fmt-jpk-fd_single_tilted-baseline-drift-mitotic_2021-01-29"
+        ".jpk-force")
+    if path.exists():
+        makers.append(("recorded:tilted", lambda: IndentationGroup(path)[0]))
+    moved = 0
+    for cname, mk in makers:
+        for first, second in ((PA, PB), (PB, PA), (PA, PC), (PC, PA)):
+            key = "segment-history:" + common.sha(
+                [cname, canon(first), canon(second)])[:16]
+            run.case({"curve": cname, "first": canon(first),
+                      "second": canon(second)}, kind="segment-history")
+            try:
+                with warnings.catch_warnings():
+                    warnings.simplefilter("ignore")
+                    fresh = mk()
+                    fresh.apply_preprocessing(copy.deepcopy(second[0]),
+                                              copy.deepcopy(second[1]))
+                    ref = snapshot(fresh)
+                    f1 = mk()
+                    f1.apply_preprocessing(copy.deepcopy(first[0]),
+                                           copy.deepcopy(first[1]))
+                    if not np.array_equal(np.asarray(f1["segment"]),
+                                          np.asarray(fresh["segment"])):
+                        moved += 1
+                    f1.apply_preprocessing(copy.deepcopy(second[0]),
+                                           copy.deepcopy(second[1]))
+                    d = diff_cols(snapshot(f1), ref)
+                    if not d:
+                        seg = np.asarray(f1["segment"])
+                        for view, val in ((f1.appr, 0), (f1.retr, 1)):
+                            got = np.asarray(view["force"])
+                            want = np.asarray(f1["force"])[seg == val]
+                            if got.shape != want.shape or \
+                                    got.tobytes() != want.tobytes():
+                                d = ("the approach / retract view holds "
+                                     f"{got.size} samples, the segment "
+                                     f"column marks {want.size}")
+            except BaseException as e:
+                d = f"raised {type(e).__name__}: {e}"
+            if d:
+                run.failing(SITE, key, f"{cname}: {canon(first)}, then "
+                            f"{canon(second)}: differs from the second "
+                            "request on a fresh curve: " + d,
+                            payload={"kind": "rerun"},
+                            theorem="C06_execute_or_skip")
+    run.count(f"segment-history-pairs-with-different-splits:{moved}")
+
+
 def check(run):
     run.sources = common.source_digests(["src/nanite/indent.py",
                                          "src/nanite/preproc.py"])
@@ -273,6 +347,7 @@ def check(run):
             pair_oracle(run, cols, A, B, cache, via_fit=True)
     shared_object_cases(run, cols, reqs, cache)
     estimate_between_cases(run)
+    segment_history_cases(run)
     if run.tier != "quick":
         from nanite import IndentationGroup
         import pathlib
